@@ -48,6 +48,7 @@ type traceEntry struct {
 
 // gstate is the scheduler's private state (touched by the main goroutine only).
 type gstate struct {
+	lastKind  int // kind of the event the task that ran last is parked at
 	rng       *scn.Rng
 	live      int
 	done      []bool
@@ -188,6 +189,11 @@ func (x *exec) pick(run []int32) int32 {
 		den := cfg.SwitchDen
 		if den < 1 {
 			den = 4
+		}
+		if cfg.SyncBias && g.lastKind >= vs.EvRLock && g.lastKind <= vs.EvAtomic {
+			// the running task has just announced a lock, pool or atomic operation:
+			// the places where check-then-act windows open. Switch much more often here.
+			den = 2
 		}
 		if has(run, g.last) && !g.rng.Chance(1, den) {
 			return g.last
@@ -426,6 +432,7 @@ func (x *exec) schedule() {
 			g.ext[m.task] = false
 		}
 		s.current.Store(-1)
+		g.lastKind = int(m.kind)
 		x.handle(m)
 		// the cache can only have changed when a write lock was just released;
 		// also look at operation boundaries and after failed loads
@@ -743,6 +750,11 @@ func (x *exec) handle(m ymsg) {
 	}
 }
 
+// RepStepCap bounds the work spent on warm-up repeats (steps of logical time
+// per task in goroutine runs, per run in histories): an expensive operation
+// repeated a thousand times explores nothing new.
+const RepStepCap = 250000
+
 func (x *exec) taskMain(t *task) {
 	s := x.sim
 	t.goid.Store(goid())
@@ -751,6 +763,9 @@ func (x *exec) taskMain(t *task) {
 	raceEnable()
 	for i, st := range t.ops {
 		for k := 0; k <= st.Rep && (k == 0 || len(t.viol) == 0); k++ {
+			if k > 0 && t.stats.Steps > RepStepCap {
+				break // warm-up repeats are cut short once the task has done this much work
+			}
 			x.taskOp(t, i, st)
 		}
 	}
@@ -767,7 +782,7 @@ func (x *exec) taskMain(t *task) {
 
 // wantFor computes the reference outcome of a task operation (main goroutine).
 func (x *exec) wantFor(st scn.Step) Outcome {
-	if x.s.Prop != "C05" {
+	if x.s.Prop != "C05" || st.Op == "gc" {
 		return Outcome{Steps: 200}
 	}
 	text, api, limit := x.opText(st)
@@ -855,8 +870,34 @@ func (x *exec) judgeC05(task int32, i int, st scn.Step, got, want Outcome, exemp
 }
 
 // taskOp runs one operation of a task program on the task's goroutine.
+// taskFinalizers: queued finalizers of the package under test run on the
+// goroutine of whichever task finishes an operation next (see the shim).
+func (x *exec) taskFinalizers(t *task) {
+	if vs.PendingFinalizers() == 0 {
+		return
+	}
+	defer func() { recover() }() // a panicking finalizer (or a budget abort inside one) ends with it
+	t.stats.Faults["finalizer-run"] += vs.RunFinalizers()
+}
+
 func (x *exec) taskOp(t *task, i int, st scn.Step) {
 	s := x.sim
+	if st.Op == "gc" {
+		// the "gc" fault: a collection now; what it queues runs at the end of
+		// the next operation that finishes
+		t.env = &Env{Budget: MinBudget}
+		s.onEvent(evOpBegin, 0, nil)
+		if !raceEnabled || vs.FinalizersRegistered() > 0 {
+			// (a collection costs ~100 ms under the race detector: there, only when the
+			// package under test has finalizers for it to trigger)
+			runtime.GC()
+		}
+		t.stats.Faults["gc"]++
+		x.taskFinalizers(t)
+		s.onEvent(evOpEnd, 0, nil)
+		t.env = nil
+		return
+	}
 	if x.s.Prop == "C16" {
 		e := &Env{Budget: 5 * MinBudget}
 		t.env = e
@@ -880,6 +921,7 @@ func (x *exec) taskOp(t *task, i int, st scn.Step) {
 		if s.trace {
 			t.note = fmt.Sprintf("op %d %s %q -> %s", i, st.Op, st.K, clip(r))
 		}
+		x.taskFinalizers(t)
 		s.onEvent(evOpEnd, 0, nil)
 		t.env = nil
 		return
@@ -951,6 +993,7 @@ func (x *exec) taskOp(t *task, i int, st scn.Step) {
 	if s.trace {
 		t.note = fmt.Sprintf("op %d %s e%d -> %s", i, st.Op, ei, clip(got.Key()))
 	}
+	x.taskFinalizers(t)
 	s.onEvent(evOpEnd, 0, nil)
 	t.env = nil
 }
